@@ -50,6 +50,41 @@ typedef struct
 
 } MantisCTRVec128Ctx_t;
 
+/* Decrement a specific column in an array of row vectors */
+STATIC_INLINE void mantis_ctr_decrement
+    (SkinnyVector8x16_t *counter, unsigned column, unsigned dec)
+{
+    uint8_t *ctr = ((uint8_t *)counter) + column * 2;
+    uint8_t *ptr;
+    unsigned index;
+    for (index = 8; index > 0; ) {
+        --index;
+        ptr = ctr + (index & 0x06) * 8;
+#if SKINNY_LITTLE_ENDIAN
+        ptr += index & 0x01;
+#else
+        ptr += 1 - (index & 0x01);
+#endif
+        dec = ptr[0] - dec;
+        ptr[0] = (uint8_t)dec;
+        dec = (dec >> 8) & 1;
+    }
+}
+
+/* Discard the unused keystream and rewind the counters so that the next
+   keystream block uses the first counter value that has not been consumed
+   at all, which is what the non-vectorized back end does */
+static void mantis_ctr_vec128_reset_keystream(MantisCTRVec128Ctx_t *ctx)
+{
+    if (ctx->offset < MANTIS_CTR_BLOCK_SIZE) {
+        unsigned unused = (MANTIS_CTR_BLOCK_SIZE - ctx->offset) / MANTIS_BLOCK_SIZE;
+        unsigned column;
+        for (column = 0; unused && column < 8; ++column)
+            mantis_ctr_decrement(ctx->counter, column, unused);
+        ctx->offset = MANTIS_CTR_BLOCK_SIZE;
+    }
+}
+
 static int mantis_ctr_vec128_set_counter
     (MantisCTR_t *ctr, const void *counter, unsigned size);
 
@@ -95,7 +130,7 @@ static int mantis_ctr_vec128_set_key
         return 0;
 
     /* Reset the keystream */
-    ctx->offset = MANTIS_CTR_BLOCK_SIZE;
+    mantis_ctr_vec128_reset_keystream(ctx);
     return 1;
 }
 
@@ -114,7 +149,7 @@ static int mantis_ctr_vec128_set_tweak
         return 0;
 
     /* Reset the keystream */
-    ctx->offset = MANTIS_CTR_BLOCK_SIZE;
+    mantis_ctr_vec128_reset_keystream(ctx);
     return 1;
 }
 
